@@ -150,7 +150,13 @@ class Enum(Ty):
         return self.name
 
     def decl(self):
-        return "%s    pub enum %s { %s }" % (self.attrs, self.name, ", ".join("%s = %d" % v for v in self.variants))
+        # discriminants that Rust would assign anyway (previous + 1, or 0 for the first) are left implicit: the AST has to
+        # continue the count after an explicit one exactly as rustc does
+        parts, prev = [], -1
+        for (n, d) in self.variants:
+            parts.append(n if d == prev + 1 else "%s = %d" % (n, d))
+            prev = d
+        return "%s    pub enum %s { %s }" % (self.attrs, self.name, ", ".join(parts))
 
     def values(self):
         return list(range(len(self.variants)))
